@@ -10,7 +10,7 @@ func init() {
 	register(&propDef{
 		id: "C20", title: "Event stream subscribers get every event once, in publish order",
 		technique: "lockset on the stream's topic/subscriber maps, snapshot-then-signal rule over the CFG, atomic discipline on the lock-free queue, node-lifetime rule (a node that left the list is neither relinked nor recycled)",
-		explanation: "Decides: (1) the stream's topic map and subscriber map and each subscriber's topic set are accessed only under their mutexes; (2) publishToTopic copies the topic's subscribers into a fresh snapshot under the read lock, releases the lock, and then signals every snapshot element exactly once, only if it is active; signal re-tests the active flag before enqueuing; Unsubscribe removes the subscriber from the topic map under the write lock; (3) every field of the lock-free queue and its nodes that is accessed with sync/atomic anywhere is accessed that way everywhere — in particular no plain store to a node's next pointer; (4) node lifetime: no function hands a queue node to a pool for reuse and a node that left the list keeps its next pointer (the tail may lag behind the head and a stalled Enqueue may still hold the node as its tail: resetting or recycling it detaches every later element); (5) a subscriber's queue is enqueued only by signal and dequeued only by Iterator. Linearizability of the queue is not decided.",
+		explanation: "Decides: (1) the stream's topic map and subscriber map and each subscriber's topic set are accessed only under their mutexes; (2) publishToTopic copies the topic's subscribers into a fresh snapshot under the read lock, releases the lock, and then signals every snapshot element exactly once, only if it is active; signal re-tests the active flag before enqueuing; Unsubscribe removes the subscriber from the topic map under the write lock; (3) every field of the lock-free queue and its nodes that is accessed with sync/atomic anywhere is accessed that way everywhere — in particular no plain store to a node's next pointer; (4) node lifetime: no function hands a queue node to a pool for reuse, and a node's next pointer changes exactly once, nil→successor, by the linking CAS of Enqueue — never stored, swapped or cleared afterwards (the tail may lag behind the head and a stalled Enqueue may still hold a dequeued node as its tail: resetting or recycling it detaches every later element); (5) a subscriber's queue is enqueued only by signal and dequeued only by Iterator. Linearizability of the queue is not decided.",
 		assumptions: []string{"linearizability / FIFO of the Michael–Scott queue under interleavings", "Iterator is used by one consumer at a time"},
 		minObl:     30,
 		run:        runC20,
